@@ -51,6 +51,22 @@ def run(c):
     for ln in res["lines"][5:8]:
         c.sample(ln, limit=8)
     c.judge(res, "outcome depends on prior heap contents", sigfn=sig, stage="fill")
+    # non-default component parameters: heap fills + second construction + second call on the object, plain and sanitized
+    def psig(rec, clauses):
+        d = sig(rec, clauses); d["extra"] = rec.get("extra"); return d
+    t = c.record(plain, ["prm", "all"], out=c.path("prm.ndjson"), timeout=900)
+    res = c.tlc_trace("C10Trace", t, label="parameters/plain")
+    for ln in res["lines"][3:5]:
+        c.sample(ln, limit=8)
+    for ln in res["lines"]:
+        if '"what":"prm"' in ln:
+            c.nontrivial.add(ln.split('"d":')[0])
+    c.judge(res, "outcome depends on prior heap contents / object history (non-default parameters)", sigfn=psig, stage="fill")
+    t = c.record(san, ["prm", "all"], out=c.path("prm-san.ndjson"), timeout=1800,
+                 env={"ASAN_OPTIONS": "detect_leaks=1:abort_on_error=0:exitcode=134", "UBSAN_OPTIONS": "halt_on_error=1:exitcode=134"},
+                 sig={"stage": "sanitizer", "matrix": "prm"})
+    res = c.tlc_trace("C10Trace", t, label="parameters/sanitized")
+    c.judge(res, "non-default parameters (sanitizer build)", sigfn=psig, stage="sanitizer")
     # stack contents + a team smaller than omp_get_max_threads(): the library called from inside the
     # caller's parallel region, 3 threads configured, after four different stack fills
     t = c.record(plain, ["stack", "all"], out=c.path("stack.ndjson"), timeout=1800, env={"OMP_NUM_THREADS": 3})
